@@ -63,18 +63,12 @@ Theorem C06_ir_unary_refuted :
 Proof. exact ir_unary_refuted. Qed.
 Print Assumptions C06_ir_unary_refuted.
 
-(** The legacy parser's level list is the grammar's outside "a `^` followed later by a `^`". *)
-Theorem C06_peg_matches_grammar_outside_known :
-  forall ts, known_xor_chain ts = false -> parse tbl_peg ts = parse tbl_ref ts.
-Proof. exact peg_outside_known. Qed.
-Print Assumptions C06_peg_matches_grammar_outside_known.
-
-Theorem C06_peg_xor_refuted :
-  exists ts, known_xor_chain ts = true /\
-             parse tbl_peg ts = Ok (EBin BitXor (EAtom 0) (EBin BitXor (EAtom 1) (EAtom 2))) /\
-             parse tbl_ref ts = Ok (EBin BitXor (EBin BitXor (EAtom 0) (EAtom 1)) (EAtom 2)).
-Proof. exact peg_xor_refuted. Qed.
-Print Assumptions C06_peg_xor_refuted.
+(** The legacy parser's level list IS the grammar's (unrestricted since /repo 1596e0a made `^`
+    left-associative; before that fix the statement was false: `a ^ b ^ c` parsed as a ^ (b ^ c)). *)
+Theorem C06_peg_matches_grammar :
+  forall ts, parse tbl_peg ts = parse tbl_ref ts.
+Proof. exact peg_is_grammar. Qed.
+Print Assumptions C06_peg_matches_grammar.
 
 (** The formatter's parser: same class as ir plus the missing prefix `+`. *)
 Theorem C06_rowan_matches_grammar_outside_known :
@@ -104,8 +98,7 @@ Theorem C06_ir_roundtrip_outside_known :
 Proof. exact ir_roundtrip_outside_known. Qed.
 Print Assumptions C06_ir_roundtrip_outside_known.
 
-Theorem C06_peg_roundtrip_outside_known :
-  forall p, wf p = true -> known_xor_chain (flatten p) = false ->
-    parse tbl_peg (flatten p) = Ok (erase p).
-Proof. exact peg_roundtrip_outside_known. Qed.
-Print Assumptions C06_peg_roundtrip_outside_known.
+Theorem C06_peg_roundtrip :
+  forall p, wf p = true -> parse tbl_peg (flatten p) = Ok (erase p).
+Proof. exact peg_roundtrip. Qed.
+Print Assumptions C06_peg_roundtrip.
